@@ -254,7 +254,7 @@ pub fn c06_case(seed: u64, case: u64) -> CaseResult {
             if let (Some(ds0), Outcome::Ok(fresh)) = (ds0, open_with(&store::mem_with(&store::dump(&reps[0].0)), (16, 16))) {
                 let (df, _) = read_doc(&fresh);
                 if df != ds0 {
-                    res.viol("C06", "incrementally-merged-arrays-differ-from-fresh-load", format!("live {} vs fresh {}", ds0, df));
+                    // two merges that both satisfy C06 may still differ from each other: that is C01's business
                     res.viol("C01", "incrementally-merged-arrays-differ-from-fresh-load", format!("live {} vs fresh {}", ds0, df));
                 }
             }
